@@ -1,5 +1,7 @@
 """C12 -- inbound in-flight limits (v3 part): the limiter inflight::InFlightServiceImpl as driven by io.rs."""
 import gen_limiter as G
+import gen_codec3 as G3
+import gen_codec5 as G5
 from props import inbound_common as IB
 from props.base import Part
 
@@ -101,8 +103,45 @@ CORPUS = [
 ]
 
 
+class SizedPart(Part):
+    """engines sized3 / sized5: `impl SizedRequest for Decoded` -- the limiter's view of the decoder's items
+    (what `wf_stream` assumes): after a PUBLISH flagged is_publish only chunks follow, the last one not flagged
+    is_chunk; a PUBLISH that is not flagged is followed by no chunk; chunks have size 0"""
+    has_oracle = False
+    NO_SHRINK_FIELDS = (0,)
+
+    def py_oracle(self, case, obs):
+        if obs == "9999":
+            return "0,6,0"
+        streaming = False
+        for i, f in enumerate(obs.split(";")):
+            x = [int(t) for t in f.split(",")]
+            if x[0] in (4, 5) or len(x) < 4:
+                break
+            kind, size, isp, isc = x[:4]
+            if kind == 3:
+                if not streaming or size != 0:
+                    return "0,7,%d" % i
+                streaming = bool(isc)
+            else:
+                if streaming or isc:
+                    return "0,7,%d" % i
+                streaming = bool(isp) and kind == 2
+                if isp and kind != 2:
+                    return "0,7,%d" % i
+        return "1"
+
+    def nontrivial(self, case, obs):
+        return ";3," in ";" + obs
+
+
 def parts(tier, rng):
     res = [LimPart("corpus", "limiter", list(CORPUS), shards=1, rule="hand written cases")]
+    n3 = 60 if tier == "quick" else 600
+    res.append(SizedPart("sized-v3", "sized3", G3.gen_dec_valid(rng, n3) + G3.gen_dec_payload(rng, n3),
+                         rule="valid v3 streams x cut sets x min_chunk: SizedRequest of every decoded item"))
+    res.append(SizedPart("sized-v5", "sized5", G5.dec5_valid(rng, n3 * 4),
+                         rule="valid v5 streams x cut sets x min_chunk: SizedRequest of every decoded item"))
     for name, cases in G.all_cases(rng, "quick" if tier == "quick" else "full"):
         res.append(LimPart(name, "limiter", cases, shards=16, rule=name, vm_slice=200))
     # MQTT 5 half: Receive Maximum, enforced by the v5 dispatchers (model: Model/Inbound.v, theorems Props/C12v5.v)
@@ -114,6 +153,8 @@ def parts(tier, rng):
 
 
 def replay_parts(rp):
+    if rp.get("engine", "limiter").startswith("sized"):
+        return [SizedPart("replay", rp["engine"], [rp["case"]], shards=1)]
     if rp.get("engine", "limiter") != "limiter":
         return IB.replay_parts(rp, ("C12",))
     return [LimPart("replay", "limiter", [rp["case"]], shards=1)]
@@ -134,6 +175,9 @@ CLAUSES = {
          "dispatcher was not woken (reading would never resume)",
     "5": "a readiness poll answered Pending although the running calls are under the limits",
     "6": "the limiter panicked",
+    "7": "the limiter's view of the decoded items is not a well-formed stream: a PUBLISH with an incomplete payload "
+         "is not flagged is_publish (its chunks would wait for a free slot its own handler holds), a chunk is "
+         "not flagged / has a size, or the final chunk is flagged is_chunk",
     "9": "the observation is shorter than the case",
 }
 
